@@ -154,7 +154,7 @@ func runECDSA(c *mon.Ctx, d *sigs.ECDSA) {
 			if h.name == "sha512" {
 				ms = ms[:3]
 			}
-			if ki >= 2 && !c.Thorough() {
+			if ki >= 1 && !c.Thorough() {
 				ms = []msgCase{ms[0], ms[len(ms)/2], ms[len(ms)-1]}
 			}
 			for _, m := range ms {
@@ -205,12 +205,12 @@ func runECDSA(c *mon.Ctx, d *sigs.ECDSA) {
 	other := keys[len(keys)-1]
 	for si, i := range sel {
 		t := triples[i]
-		e.tamper(t.k, t.h, t.m, t.sig, other, c.Thorough() || si == 0)
+		e.tamper(t.k, t.h, t.m, t.sig, other, si == 0 || c.Thorough() && si < 4)
 	}
 	for _, h := range hashes[:2] {
 		m := msgCase{"40B", e.rng.Bytes(40)}
 		e.crafted(keys[0], h, m)
-		e.arbitrary(keys[0], h, m, c.Pick(90, 1200))
+		e.arbitrary(keys[0], h, m, c.Pick(60, 1200))
 	}
 	if d.HasRecover {
 		e.recover(keys, hashes)
